@@ -32,10 +32,15 @@ def exc_diff(spec, mods, exc):
 
 
 def branch_into_data(E):
+    roles = getattr(E, "label_roles", None) or {}
     for key, rec in E.insns.items():
         if rec["uid"][0] == "patch" and rec["ins"][0] in ("jmp", "jcc", "call", "callplt"):
             tgt = E.labels.get(rec["ins"][1])
             if isinstance(tgt, tuple) and (tgt not in E.insns or E.insns[tgt]["bk"] != "c"):
+                return True
+            # the label sits on a data block of the input (even if a later deletion of this very
+            # request makes it slide onto code)
+            if roles.get(rec["ins"][1], {}).get("r_owner_kind") == "d":
                 return True
     return False
 
